@@ -3,6 +3,7 @@ package mpb
 import (
 	"context"
 	"io"
+	"time"
 
 	"github.com/vbauerster/mpb/v8/decor"
 )
@@ -18,10 +19,11 @@ type vFrameRec struct {
 	w      [vMaxFrames]int
 	nl     [vMaxFrames]int
 	cuu    [vMaxFrames]int
-	closed bool          // set by the harness when Wait has returned
-	late   int           // writes after Wait returned
-	fail   int           // fail the k-th write (1-based), 0 = never
-	tick   chan struct{} // when set: one token per write (never blocks), see vEnv.cycle
+	seq    [vMaxFrames]int // order fingerprint of the marked rows of the frame (see vMarkText)
+	closed bool            // set by the harness when Wait has returned
+	late   int             // writes after Wait returned
+	fail   int             // fail the k-th write (1-based), 0 = never
+	tick   chan struct{}   // when set: one token per write (never blocks), see vEnv.cycle
 }
 
 func (r *vFrameRec) Write(p []byte) (int, error) {
@@ -33,6 +35,7 @@ func (r *vFrameRec) Write(p []byte) (int, error) {
 		r.w[r.n] = vTextWidth(s)
 		r.nl[r.n] = vTextNL(s)
 		r.cuu[r.n] = vTextCUU(s)
+		r.seq[r.n] = vTextSeq(s)
 	}
 	r.n++
 	if r.tick != nil {
@@ -54,6 +57,7 @@ type vMark struct {
 	lastCur      int64
 	lastDone     bool
 	lastAb       bool
+	digit        int // when > 0 the row carries this order mark (vMarkText)
 	failAt       int // return an error from the k-th Fill (1-based), 0 = never
 	rec          *vFrameRec
 	framesAtFail int // frames written when the failing Fill was called (-1: has not failed)
@@ -67,6 +71,10 @@ func (m *vMark) Fill(w io.Writer, st decor.Statistics) error {
 			m.framesAtFail = m.rec.n
 		}
 		return vErrIO
+	}
+	if m.digit > 0 {
+		_, err := io.WriteString(w, vMarkText(m.width, 0, m.digit))
+		return err
 	}
 	_, err := io.WriteString(w, vMakeText(m.width, 0))
 	return err
@@ -104,7 +112,9 @@ func vNewContainer(mode vMode, q int, extra ...ContainerOption) *vEnv {
 	}
 	switch mode {
 	case vAuto:
-		opts = append(opts, WithAutoRefresh())
+		// the rate matters only natively (the engine's ticker model has no durations): a fast ticker gives
+		// replays a chance to hit windows between a tick and the shutdown
+		opts = append(opts, WithAutoRefresh(), WithRefreshRate(200*time.Microsecond))
 	case vManual:
 		e.refresh = make(chan interface{})
 		opts = append(opts, WithManualRefresh(e.refresh))
@@ -152,7 +162,12 @@ func vS1(mode vMode, q int) {
 	m := vNewMark(0)
 	b, err := e.p.Add(2, m, BarFillerTrim())
 	vAssert(err == nil, "S1.add-ok")
-	b.IncrBy(2)
+	if vParam("overshoot") != 0 {
+		// the last chunk is larger than what is left: current is capped at total
+		b.EwmaIncrInt64(3, time.Millisecond)
+	} else {
+		b.IncrBy(2)
+	}
 	if mode == vManual {
 		e.refresh <- nil
 		e.refresh <- nil
@@ -246,6 +261,10 @@ func vsS3() {
 	b0, _ := e.p.Add(2, m0, opts0...)
 	b1, _ := e.p.Add(5, m1, BarFillerTrim())
 	b0.IncrBy(2)
+	if vParam("lateAbort") != 0 {
+		// Abort on a bar that has already completed does nothing (in particular it keeps its removal setting)
+		b0.Abort(!rm)
+	}
 	b1.IncrBy(1)
 	b1.Abort(drop)
 	if mode == vManual {
@@ -407,7 +426,12 @@ func vsS5() {
 // ---- S6: a bar queued after another (C17)
 func vsS6() {
 	mode := vModeParam()
-	e := vNewContainer(mode, -1)
+	pop := vParam("pop") != 0
+	var extra []ContainerOption
+	if pop {
+		extra = append(extra, PopCompletedMode())
+	}
+	e := vNewContainer(mode, -1, extra...)
 	late := vParam("successorAfterPredecessorFinished") != 0
 	two := vParam("twoSuccessors") != 0
 	m0, m1, m2, m3 := vNewMark(0), vNewMark(1), vNewMark(2), vNewMark(3)
@@ -453,7 +477,7 @@ func vsS6() {
 		// the successor is never drawn before the predecessor's last frame: it is drawn fewer times
 		vAssert(m0.fills >= 1, id+".predecessor-was-displayed")
 	}
-	if mode == vAuto {
+	if mode == vAuto && !pop {
 		// the successor takes the predecessor's place: the last frame shows the successor(s) and the other bar
 		last := e.rec.n - 1
 		want := 10 + 1000
@@ -684,4 +708,93 @@ func vsS12() {
 			vAssert(dC.last == want, "S12.new-member-gets-the-common-width")
 		}
 	}
+}
+
+// ---- S13: row order follows priority; priority changes; a successor takes its predecessor's row (C06, C17)
+// Rows carry order marks 1..4 (bars A..D); a frame's fingerprint lists the marks from top to bottom.
+func vsS13() {
+	e := vNewContainer(vManual, -1)
+	e.vTicks()
+	mk := func(d int) *vMark {
+		m := vNewMark(0)
+		m.width, m.digit = 3, d
+		return m
+	}
+	mA, mB, mC, mD := mk(1), mk(2), mk(3), mk(4)
+	which := vParam("case")
+	optsC := []BarOption{BarFillerTrim()}
+	if which == 4 {
+		optsC = append(optsC, BarRemoveOnComplete())
+	}
+	a, _ := e.p.Add(2, mA, BarFillerTrim())
+	b, _ := e.p.Add(2, mB, BarFillerTrim())
+	c, _ := e.p.Add(2, mC, optsC...)
+	bars := []*Bar{a, b, c}
+	last := func() int { return e.rec.seq[e.rec.n-1] }
+	var d *Bar
+	if which == 3 {
+		d, _ = e.p.Add(2, mD, BarFillerTrim(), BarQueueAfter(a))
+		bars = append(bars, d)
+	}
+	e.cycle()
+	vAssert(last() == 0x123, "S13.default-priority-is-creation-order")
+	switch which {
+	case 0:
+		b.SetPriority(-1)
+		e.cycle()
+		vAssert(last() == 0x213, "S13.immediate-change-honoured-from-the-next-frame")
+	case 1:
+		e.p.UpdateBarPriority(b, -1, true)
+		e.cycle() // order of this single frame is unspecified
+		e.cycle()
+		vAssert(last() == 0x213, "S13.lazy-change-honoured-from-the-frame-after-next")
+	case 2:
+		e.p.UpdateBarPriority(b, 7, true)
+		b.SetPriority(-1)
+		e.cycle()
+		e.cycle()
+		vAssert(last() == 0x213, "S13.newer-immediate-change-wins-over-older-lazy-change")
+	case 3:
+		a.SetPriority(5)
+		e.cycle()
+		vAssert(last() == 0x231, "S13.queued-bar-not-displayed-while-predecessor-is")
+		a.IncrBy(2)
+		e.cycle()
+		e.cycle()
+		vAssert(last() == 0x231, "S13.predecessor-last-frame")
+		e.cycle()
+		vAssert(last() == 0x234, "S13.successor-takes-the-predecessors-current-place")
+	case 4:
+		// a bar that has left the container (the bottom row, taken from the heap first) ignores a late priority change
+		c.IncrBy(2)
+		e.cycle()
+		e.cycle()
+		e.cycle()
+		vAssert(last() == 0x12, "S13.removed-bar-is-gone")
+		c.SetPriority(9)
+		e.p.UpdateBarPriority(c, -3, true)
+		e.cycle()
+		vAssert(last() == 0x12, "S13.late-priority-change-of-a-removed-bar-does-nothing")
+	}
+	for _, x := range bars {
+		x.IncrBy(2)
+	}
+	e.cycle()
+	e.cycle()
+	e.vFinish("S13", bars...)
+}
+
+// ---- queue length: WithQueueLen is honoured (C05: "any number of bars relative to the queue length")
+func vsQueueLen() {
+	q := vParam("queueLen")
+	e := vNewContainer(vManual, q)
+	got := -1
+	done := make(chan struct{})
+	e.p.operateState <- func(s *pState) {
+		got = cap(s.hm.req)
+		close(done)
+	}
+	<-done
+	vAssert(got == q, "Q.heap-manager-queue-has-the-configured-length")
+	e.vFinish("Q")
 }
